@@ -115,7 +115,7 @@ Section Rsv.
 
   Lemma rh_update_bound c old uid :
     rvalid ds uid = true -> rc_known c (rd_rsv (rdesc_of ds uid)) = true ->
-    (old = None \/ old = Some (rpending uid) \/ old = Some (rbound ds uid false)) ->
+    (old = None \/ old = Some (rpending uid) \/ old = Some (rbound ds uid false) \/ old = Some (rannotated ds uid)) ->
     rh_update ds c old (rbound ds uid false) =
     let r := rd_rsv (rdesc_of ds uid) in
     match old with
@@ -126,9 +126,10 @@ Section Rsv.
   Proof.
     intros Hv Hk Hold. unfold rh_update, rbound. cbn [ro_term ro_assigned negb ro_rsv ro_uid].
     rewrite (rdesc_rsv_nz uid Hv), andb_false_r.
-    destruct Hold as [->|[->| ->]]; cbn [rpending rbound ro_rsv Z.eqb].
+    destruct Hold as [->|[->|[->| ->]]]; cbn [rpending rbound rannotated ro_rsv Z.eqb].
     - unfold rc_add. rewrite Hk. reflexivity.
     - unfold rc_add. rewrite Hk. reflexivity.
+    - rewrite (rdesc_rsv_nz uid Hv). unfold rc_del, rc_add. rewrite Hk. cbn [rc_known rc_st]. rewrite Hk. reflexivity.
     - rewrite (rdesc_rsv_nz uid Hv). unfold rc_del, rc_add. rewrite Hk. cbn [rc_known rc_st]. rewrite Hk. reflexivity.
   Qed.
 
@@ -181,7 +182,7 @@ Section Rsv.
       - eapply rlisted_ext; [apply (Hclr 3 eq_refl)|]. apply listed_del; assumption. }
     destruct ((k =? 5) && (s =? 2)) eqn:C5.
     { apply andb_true_iff in C5. destruct C5 as [_ Hs]. apply Z.eqb_eq in Hs.
-      rewrite (rh_update_bound _ _ _ Hv Hkr (or_intror (or_intror eq_refl))). cbn [rbound ro_rsv]. fold d.
+      rewrite (rh_update_bound _ _ _ Hv Hkr (or_intror (or_intror (or_introl eq_refl)))). cbn [rbound ro_rsv]. fold d.
       rewrite Hnz.
       constructor; cbn [rl_c rl_life rc_st rc_known]; [|exact HK| |exact Hlife].
       - apply add_pod_Inv; [apply release_Inv, HI|apply ralloc_ok, Hv].
@@ -211,7 +212,7 @@ Section Rsv.
 
   Lemma rdeliver c old u o dl :
     rvalid ds u = true -> robj_of ds life u = Some o ->
-    (old = None \/ old = Some (rpending u) \/ old = Some o) ->
+    (old = None \/ old = Some (rpending u) \/ old = Some o \/ old = Some (rannotated ds u)) ->
     Inv no_topo (rc_st c) -> (forall r, rsv_valid nr r = true -> rc_known c r = true) ->
     rlisted (rc_st c) (rpartial dl) ->
     let c' := rh_update ds c old o in
@@ -235,11 +236,11 @@ Section Rsv.
         eapply rlisted_ext; [|apply listed_del, HL]. apply Hpart.
         unfold rsel. apply Z.eqb_eq in E4. rewrite E4. cbn. apply andb_false_r.
       + assert (E2 : (life u =? 2) = true) by (rewrite orb_false_r in E24; exact E24).
-        assert (Hold' : old = None \/ old = Some (rpending u) \/ old = Some (rbound ds u false)) by exact Hold.
+        assert (Hold' : old = None \/ old = Some (rpending u) \/ old = Some (rbound ds u false) \/ old = Some (rannotated ds u)) by exact Hold.
         cbn zeta. rewrite (rh_update_bound c old u Hv Hkr Hold').
         assert (Hsel : rsel life false (rd_rsv (rdesc_of ds u)) u = true).
         { unfold rsel. rewrite Z.eqb_refl, E2. reflexivity. }
-        destruct Hold' as [->|[->| ->]]; cbn [rpending rbound ro_rsv Z.eqb]; try rewrite (rdesc_rsv_nz u Hv); cbn [rc_st rc_known].
+        destruct Hold' as [->|[->|[->| ->]]]; cbn [rpending rbound rannotated ro_rsv Z.eqb]; try rewrite (rdesc_rsv_nz u Hv); cbn [rc_st rc_known].
         * split; [apply add_pod_Inv; [exact HI|apply ralloc_ok, Hv]|]. split; [reflexivity|].
           eapply rlisted_ext; [apply (Hpart true Hsel)|]. apply listed_add; assumption.
         * split; [apply add_pod_Inv; [exact HI|apply ralloc_ok, Hv]|]. split; [reflexivity|].
@@ -248,11 +249,15 @@ Section Rsv.
           eapply rlisted_ext; [|apply listed_add; [exact Hv|apply listed_del, HL]].
           intros r v. cbn beta. rewrite <- (Hpart true Hsel r v).
           destruct ((v =? u) && (r =? rd_rsv (rdesc_of ds u))); reflexivity.
+        * split; [apply add_pod_Inv; [apply release_Inv, HI|apply ralloc_ok, Hv]|]. split; [reflexivity|].
+          eapply rlisted_ext; [|apply listed_add; [exact Hv|apply listed_del, HL]].
+          intros r v. cbn beta. rewrite <- (Hpart true Hsel r v).
+          destruct ((v =? u) && (r =? rd_rsv (rdesc_of ds u))); reflexivity.
     - (* pending: ignored *)
       injection Ho as <-. cbn zeta.
       assert (Hc : rh_update ds c old (rpending u) = c).
       { unfold rh_update, rpending. cbn [ro_term ro_assigned negb].
-        destruct Hold as [->|[->| ->]]; reflexivity. }
+        destruct Hold as [->|[->|[->| ->]]]; reflexivity. }
       rewrite Hc. split; [exact HI|]. split; [reflexivity|].
       eapply rlisted_ext; [|exact HL]. intros r v. unfold rpartial, upd1.
       destruct (v =? u) eqn:E; [|reflexivity]. apply Z.eqb_eq in E. subst v.
@@ -274,13 +279,22 @@ Section Rsv.
       constructor; cbn [rf_c rf_seen]; [exact HI'|rewrite HK'; exact HK|].
       exists (upd1 dl id true). split; [exact HL'|]. intros u. unfold upd1. destruct (u =? id); [reflexivity|apply Hs]. }
     destruct (k =? 2).
-    { destruct (rdeliver (rf_c f) (Some o) id o dl Hv Ho (or_intror (or_intror eq_refl)) HI HK HL) as (HI' & HK' & HL').
+    { destruct (rdeliver (rf_c f) (Some o) id o dl Hv Ho (or_intror (or_intror (or_introl eq_refl))) HI HK HL) as (HI' & HK' & HL').
       constructor; cbn [rf_c rf_seen]; [exact HI'|rewrite HK'; exact HK|].
       exists (upd1 dl id true). split; [exact HL'|]. intros u Hu. unfold upd1. destruct (u =? id); [reflexivity|apply Hs, Hu]. }
     destruct (k =? 3).
     { destruct (rdeliver (rf_c f) (Some (rpending id)) id o dl Hv Ho (or_intror (or_introl eq_refl)) HI HK HL) as (HI' & HK' & HL').
       constructor; cbn [rf_c rf_seen]; [exact HI'|rewrite HK'; exact HK|].
       exists (upd1 dl id true). split; [exact HL'|]. intros u Hu. unfold upd1. destruct (u =? id); [reflexivity|apply Hs, Hu]. }
+    destruct (k =? 8).
+    { destruct (ro_assigned o) eqn:Ea.
+      - assert (Hc : rh_update ds (rf_c f) None (rannotated ds id) = rf_c f) by reflexivity. rewrite Hc.
+        destruct (rdeliver (rf_c f) (Some (rannotated ds id)) id o dl Hv Ho (or_intror (or_intror (or_intror eq_refl))) HI HK HL) as (HI' & HK' & HL').
+        constructor; cbn [rf_c rf_seen]; [exact HI'|rewrite HK'; exact HK|].
+        exists (upd1 dl id true). split; [exact HL'|]. intros u. unfold upd1. destruct (u =? id); [reflexivity|apply Hs].
+      - destruct (rdeliver (rf_c f) None id o dl Hv Ho (or_introl eq_refl) HI HK HL) as (HI' & HK' & HL').
+        constructor; cbn [rf_c rf_seen]; [exact HI'|rewrite HK'; exact HK|].
+        exists (upd1 dl id true). split; [exact HL'|]. intros u. unfold upd1. destruct (u =? id); [reflexivity|apply Hs]. }
     constructor; [assumption|assumption|exists dl; auto].
   Qed.
   Lemma rfold_RFresh evs f : RFresh f -> RFresh (fold_left (rreplay_step nr ds life) evs f).
@@ -292,7 +306,9 @@ Section Rsv.
     destruct (k =? 6); [destruct (rsv_valid nr id); exact H|]. destruct (negb (rvalid ds id)); [exact H|].
     destruct (robj_of ds life id); [|exact H].
     destruct (k =? 1); [cbn [rf_seen]; unfold upd1; destruct (u =? id); [reflexivity|exact H]|].
-    destruct (k =? 2); [exact H|]. destruct (k =? 3); exact H.
+    destruct (k =? 2); [exact H|]. destruct (k =? 3); [exact H|].
+    destruct (k =? 8); [|exact H].
+    destruct (ro_assigned _); cbn [rf_seen]; unfold upd1; destruct (u =? id); try reflexivity; exact H.
   Qed.
   Lemma rfold_seen evs f u : rf_seen f u = true -> rf_seen (fold_left (rreplay_step nr ds life) evs f) u = true.
   Proof. revert f. induction evs as [|e t IH]; intros f H; [exact H|]. cbn [fold_left]. apply IH, rreplay_step_seen, H. Qed.
